@@ -392,6 +392,42 @@ def run_routine(key):
     return ok(outcome=tol.digest(want))
 
 
+def run_builtin_alignment_routine(key):
+    """the posterior routine of the integration models with the built-in spatial/spectral alignment, on F bins
+    with one observation each: in every bin the result is the Bayes posterior of spatial[order] + spectral for an
+    order that maximises the bin's own criterion sum_k q_k log p_k (every maximiser is accepted at a tie)."""
+    from pb_bss.distribution.mixture_model_utils import \
+        log_pdf_to_affiliation_for_integration_models_with_inline_pa as routine
+    K, F, w = key['K'], key['F'], key['weight']
+    spat = np.array(key['spatial'], dtype=float).reshape(F, K, 1)
+    spec = np.array(key['spectral'], dtype=float).reshape(F, K, 1)
+    pi = np.array(w, dtype=float).reshape(K, 1)
+    try:
+        got = routine(pi, spat.copy(), spec.copy())
+    except Exception as e:  # noqa
+        return viol(f'built-in alignment routine raised {e!r}')
+    got = np.asarray(got)
+    if got.shape != (F, K, 1):
+        return viol(f'built-in alignment routine: shape {got.shape} != {(F, K, 1)}')
+    orders = list(itertools.permutations(range(K)))
+    tie = False
+    for f in range(F):
+        crit = []
+        for o in orders:
+            lp = spat[f, list(o)] + spec[f]
+            q = M.bayes(lp, np.ones((K, 1)))
+            crit.append(float(np.sum(q * lp)))
+        best = max(crit)
+        cands = [o for o, c in zip(orders, crit) if c >= best - 1e-9 * (1 + abs(best))]
+        tie = tie or len(cands) > 1
+        wants = [M.bayes(spat[f, list(o)] + spec[f], pi) for o in cands]
+        if not any(np.abs(got[f] - w_).max() <= tol.TIGHT for w_ in wants):
+            return viol(f'built-in alignment, bin {f} of {F}: posterior {got[f].ravel().tolist()} is not the Bayes '
+                        f'posterior for any criterion-maximising order {cands} (expected '
+                        f'{[w_.ravel().tolist() for w_ in wants]})', got)
+    return ok(outcome=tol.digest(got), flags=['tie'] if tie else ['unique'])
+
+
 def run_mask_fit_predict(key):
     """fit_predict with a source-activity mask: returned posterior honours the mask."""
     K, N, lead, seed = key['K'], key['N'], tuple(key['lead']), key['seed']
@@ -610,6 +646,17 @@ def subchecks(tier, seed):
                     bound=dict(K=[1, 2, 3], logpdf_alphabet=list(LOGPDF_ALPHABET), masks='all activity patterns',
                                weights={str(k): [list(r) for r in v] for k, v in WEIGHT_ROWS.items()},
                                eps=[0.0, 1e-10]), exhaustive=True))
+    def bar_cases():
+        for K, F, alpha in ((2, 2, (-3.0, 0.0, 2.0)), (2, 3, (0.0, 2.0)), (3, 2, (0.0, 2.0))):
+            tables = list(itertools.product(alpha, repeat=K * F))
+            for sp in tables:
+                for sc in tables:
+                    for w in WEIGHT_ROWS[K][:2]:
+                        yield (K, F, sp, sc, w)
+    subs.append(Sub('builtin_alignment_routine', ('K', 'F', 'spatial', 'spectral', 'weight'), bar_cases,
+                    run_builtin_alignment_routine, exhaustive=True,
+                    bound=dict(shapes='(K,F) in {(2,2) over {-3,0,2}, (2,3) over {0,2}, (3,2) over {0,2}}',
+                               tables='all spatial x all spectral log-density tables, one observation per bin')))
     subs.append(Sub('fit_predict_with_mask', ('K', 'N', 'lead', 'mask', 'it', 'seed'),
                     mfp_cases, run_mask_fit_predict))
 
